@@ -38,8 +38,8 @@ EXPLANATION = (
     'symbolic at once (z3 answers unknown) the units split into arbitrary '
     'rotation x literal size and literal rotation x arbitrary size/angle.  '
     'Counterexamples are replayed through the public API on plain floats '
-    '(rotation recovered as atan2(s,c), RNG draws scripted); three genuine '
-    'defects are listed in known_findings.d/C19.json with proposed patches.')
+    '(rotation recovered as atan2(s,c), RNG draws scripted); the genuine '
+    'defects found are listed in known_findings.json (all fixed in /repo).')
 
 TOL = Fraction(1, 10**11)
 MARGIN = Fraction(1, 10**4)     # only used to ask for robust witnesses
@@ -2414,8 +2414,8 @@ MANIFEST = dict(
     '(hexagon, 3-sector) runs matplotlib C++ and is replaced by a stated '
     'contract; np.argsort/np.max on |.| modelled as comparison sort on squared '
     'keys; divisors assumed non-zero in get_border_point; wrap-around cells, '
-    'Grid and plotting outside; known defects listed in known_findings.d/C19.json'
-    ' Concrete data-representation / scale / boundary probes of the real'
+    'Grid and plotting outside; defects found are listed in known_findings.json'
+    '. Concrete data-representation / scale / boundary probes of the real'
     ' code (dtype, container and memory-layout variants, argument'
     ' immutability, magnitudes) accompany the symbolic runs; they are'
     ' differential runs, not solver verdicts.',
